@@ -638,7 +638,7 @@ def _pre_repair(fn):
 
 # property-preserving refactorings that must stay green (applied with patch -p1 to a scratch copy; `selftest --mutants` runs them)
 HARMLESS = [
-    ("overflow guard moved from the top of sercomm_drv_rx_char() to the two store sites", "mutants/harmless/C06-guard-at-store-sites.diff"),
+    ("overflow guard moved from the top of sercomm_drv_rx_char() to the two store sites", "mutants/harmless/C06/h1.diff"),
 ]
 # seeded defects kept outside the repo that must stay red with a confirmed replay: (label, patch, obligation substring)
 SEEDED = [
